@@ -610,3 +610,38 @@ def loop_exit_atoms(body, header, blocks, getters=None):
             if s not in blocks and s not in pan:
                 out.append(((b, s), [atom_norm(a, getters) for a in body.edge_atoms((b, s))]))
     return out
+
+
+def structure_signature(body):
+    """coarse, position-free signature of a function: loops, element stores, callee multiset (for sibling cross-checks)"""
+    import collections
+    calls = collections.Counter()
+    for bi, t in body.calls():
+        n = t["callee"].get("def", "")
+        last = n.split("::")[-1]
+        if last in ("deref", "deref_mut", "clone", "into_iter", "next", "from", "into", "branch", "from_residual", "as_ref", "borrow"):
+            continue
+        calls[last] += 1
+    stores = 0
+    for bi, si, s in body.assigns():
+        p = s["place"]
+        if p["p"] and p["p"][0]["k"] == "deref" and any(True for d in body.defs.get(p["l"], []) if d[2] == "call" and d[3]["callee"].get("def", "").endswith("index_mut")):
+            stores += 1
+    return {"for_loops": len(loops_in(body)), "while_loops": len(natural_loops(body)) - len(loops_in(body)), "element_stores": stores, "calls": dict(sorted(calls.items()))}
+
+
+def siblings_agree(ctx, rule, name_a, name_b, what):
+    a, b = ctx.body(name_a), ctx.body(name_b)
+    ctx.scan([a, b])
+    sa, sb = structure_signature(a), structure_signature(b)
+    diff = []
+    for k in ("for_loops", "while_loops", "element_stores"):
+        if sa[k] != sb[k]:
+            diff.append("%s: %d vs %d" % (k, sa[k], sb[k]))
+    for c in sorted(set(sa["calls"]) | set(sb["calls"])):
+        if sa["calls"].get(c, 0) != sb["calls"].get(c, 0):
+            diff.append("%s: %d vs %d" % (c, sa["calls"].get(c, 0), sb["calls"].get(c, 0)))
+    ctx.ob(rule, name_a + " ~ " + name_b.split("::")[-1], what, "ok" if not diff else "violation",
+           "the two sibling routines have the same loop / store / call structure (%d loops, %d element stores, %d call kinds)" % (sa["for_loops"] + sa["while_loops"], sa["element_stores"], len(sa["calls"])) if not diff else
+           "sibling implementations of the same step (transposes of each other) disagree in structure: %s - one of them was changed alone" % "; ".join(diff[:5]))
+    return not diff
